@@ -22,6 +22,8 @@ type SpecEnv struct {
 	wmPre   *WMs
 	loopHdr *ssa.BasicBlock
 	depth   int
+	lframe  *Frame // inside old(): frame and header of the loop clause being evaluated, for $range only
+	lhdr    *ssa.BasicBlock
 }
 
 func (ex *Exec) newEnv(pkgPath string, st *State) *SpecEnv {
@@ -586,14 +588,18 @@ func (ex *Exec) rangeIndex(env *SpecEnv) Val {
 
 // rangeSlice returns the slice value a `range` loop iterates over.
 func (ex *Exec) rangeSlice(env *SpecEnv) Val {
-	if env.frame == nil || env.loopHdr == nil {
+	frame, hdr := env.frame, env.loopHdr
+	if frame == nil || hdr == nil {
+		frame, hdr = env.lframe, env.lhdr
+	}
+	if frame == nil || hdr == nil {
 		sfail("$range outside a loop clause")
 	}
-	for _, ins := range env.loopHdr.Instrs {
+	for _, ins := range hdr.Instrs {
 		if b, ok := ins.(*ssa.BinOp); ok {
 			if c, ok := b.Y.(*ssa.Call); ok {
 				if bi, ok := c.Call.Value.(*ssa.Builtin); ok && bi.Name() == "len" {
-					if v, ok := env.frame.regs[c.Call.Args[0]]; ok {
+					if v, ok := frame.regs[c.Call.Args[0]]; ok {
 						return v
 					}
 				}
@@ -787,6 +793,18 @@ func (ex *Exec) evalCall(env *SpecEnv, e *SExpr) Val {
 						ne.vars[k] = v
 					} else if len(v.L) > 0 && v.L[0].op == "bound" {
 						ne.vars[k] = v
+					}
+				}
+				// $range / $i name SSA registers of the loop being cut: the same values inside old(), read against the old heap
+				// (names of locals must keep resolving against the old env, so the frame is passed on separately)
+				if ne.frame == nil && ne.loopHdr == nil {
+					ne.lframe = env.frame
+					if ne.lframe == nil {
+						ne.lframe = env.lframe
+					}
+					ne.lhdr = env.loopHdr
+					if ne.lhdr == nil {
+						ne.lhdr = env.lhdr
 					}
 				}
 				oe = ne
